@@ -215,3 +215,21 @@ def s_cumsum_slice_tril(a, b, v):
     sl = slice(1, 4)
     r, q = np.tril_indices(3)
     return np.hstack([c, a[sl], b[slice(None, None, 2)], r * 10 + q, np.atleast_2d(a).shape[0], np.atleast_2d(a)[0, 1]])
+
+
+def s_repeat(a, b, v):
+    return np.hstack([np.repeat(a[:3], 2), np.repeat(np.arange(3), 2 * np.arange(3) + 1), np.array(a[:2].tolist() + [7])])
+
+
+def s_fancy_negative_setitem(a, b, v):
+    w = np.full(6, 4)
+    w[[0, -1]] *= 3
+    p = np.arange(7)
+    p[[1, -2]] = 50
+    return np.hstack([w, p])
+
+
+def s_stack_reversed(a, b, v):
+    m = np.stack([a[:3], b[:3], a[1:4]])
+    t = np.stack([a[:3], b[:3]], axis=1)
+    return np.hstack([m.reshape(-1), t.reshape(-1), np.array(list(reversed([a[0], a[1], v])))])
